@@ -234,6 +234,28 @@ class VSvcDeco(_SvcMixin, PoolDecorator):
             raise
 
 
+@service(flavour=asyncio)
+class VSvcWaiter(_SvcMixin, PoolDecorator):
+    """An asyncio service that runs "until cancelled" by waiting on a future only its own frame references."""
+
+    def __init__(self, target, label="waiter", **kwargs):
+        super().__init__(target)
+        self._setup(label, kwargs)
+
+    async def run(self):
+        _event("run", label=self.label, flavour="asyncio")
+        for n in range(5):
+            _event("beat", label=self.label, n=n)
+            await asyncio.sleep(0.01)
+        try:
+            await asyncio.get_running_loop().create_future()
+        except asyncio.CancelledError:
+            _event("cancelled", label=self.label)
+            raise
+        finally:
+            _event("waiter-ended", label=self.label)
+
+
 @service(flavour=threading)
 class VSvcThread(_SvcMixin, PoolDecorator):
     def __init__(self, target, label="thread", **kwargs):
